@@ -128,6 +128,18 @@ Definition default_cap : Z := 10000.               (* DefaultMaxSeriesPerMetric 
 Definition eff_cap_with (dflt raw : Z) : Z := if raw =? 0 then dflt else raw.
 Definition eff_cap (raw : Z) : Z := eff_cap_with default_cap raw.
 
+(* Admissible quiescent outcome of a `bulk` run: n DISTINCT tuples, each resolved once and emitted to once (weight 1), no
+   unregister, on a metric with effective cap [cap] (<= 0: unbounded), from any number of goroutines:
+     every emission is in its own series (value 1) or is a cardinality drop through a tombstone; nothing unknown or stale;
+     the series never exceed the cap; a drop happens only when the cap is reached — then exactly cap series exist (so on an
+     unbounded metric, or with n <= cap, there is no drop at all); no tombstone was handed out while the metric had fewer than
+     cap series ([early] = number of tombstones after whose return seriesCount was still below the cap). *)
+Definition bulk_ok (cap n series drops tombs sum count unknown stale early : Z) : bool :=
+  (series + drops =? n) && (0 <=? series) && (0 <=? drops) &&
+  ((cap <=? 0) || (series <=? cap)) &&
+  ((drops =? 0) || ((0 <? cap) && (series =? cap))) &&
+  (count =? series) && (sum =? series) && (tombs =? drops) && (unknown =? 0) && (stale =? 0) && (early =? 0).
+
 Record cfg := { c_kind : kind; c_cap : Z;       (* eff_cap of the registered MaxSeriesPerMetric; <= 0 means unbounded *)
                 c_nlabels : nat; c_buckets : list Z; c_variant : variant }.
 
